@@ -117,6 +117,8 @@ pub struct GenOpts {
     pub defaults: bool,
     pub constraints: bool,
     pub composite_keys: bool,
+    pub w_select: u32,
+    pub w_begin: u32,
     pub max_rows_per_insert: usize,
 }
 
@@ -144,6 +146,8 @@ impl Default for GenOpts {
             defaults: true,
             constraints: true,
             composite_keys: false,
+            w_select: 4,
+            w_begin: 3,
             max_rows_per_insert: 3,
         }
     }
@@ -195,7 +199,7 @@ pub fn gen_astmt(o: &GenOpts) -> BoxedStrategy<AStmt> {
     let mut v: Vec<(u32, BoxedStrategy<AStmt>)> = vec![];
     let maxr = o.max_rows_per_insert.max(1);
     v.push((10, (any::<u16>(), prop::collection::vec(prop::collection::vec(gen_aval(big), 5), 1..=maxr), prop::bool::weighted(0.2)).prop_map(|(t, rows, partial)| AStmt::Insert { t, rows, partial }).boxed()));
-    v.push((4, (any::<u16>(), gen_apred(big)).prop_map(|(t, pred)| AStmt::Select { t, pred }).boxed()));
+    v.push((o.w_select, (any::<u16>(), gen_apred(big)).prop_map(|(t, pred)| AStmt::Select { t, pred }).boxed()));
     if o.update {
         v.push((6, (any::<u16>(), any::<u16>(), gen_aval(big), prop::option::weighted(0.3, -3i8..4), gen_apred(big)).prop_map(|(t, col, val, add, pred)| AStmt::Update { t, col, val, add, pred }).boxed()));
     }
@@ -232,7 +236,7 @@ pub fn gen_history(o: &GenOpts) -> BoxedStrategy<Vec<Step>> {
     let ns = o.sessions.max(1);
     let mut v: Vec<(u32, BoxedStrategy<Step>)> = vec![];
     v.push((8, stmt.clone().prop_map(Step::Auto).boxed()));
-    v.push((3, (0..ns).prop_map(Step::Begin).boxed()));
+    v.push((o.w_begin, (0..ns).prop_map(Step::Begin).boxed()));
     v.push((12, ((0..ns), stmt.clone()).prop_map(|(s, st)| Step::Exec(s, st)).boxed()));
     v.push((3, (0..ns).prop_map(Step::Commit).boxed()));
     if o.rollback {
@@ -638,6 +642,14 @@ pub struct Interp {
     /// rows that carry more than one version (were updated at least once): (table, model row id)
     pub updated_rows: BTreeSet<(String, u64)>,
     checks_done: usize,
+    /// per open session: (reads done, a foreign transaction ended after its last read)
+    pub sess_reads: BTreeMap<u8, (u32, bool)>,
+    /// a reader observed (correctly or not) a state in which a foreign writer ended between two of its reads
+    pub saw_foreign_end_between_reads: bool,
+    /// two open transactions wrote the same row
+    pub saw_concurrent_same_row_write: bool,
+    /// do not assert first-committer-wins (open finding): both may commit
+    pub tolerate_ww_conflict: bool,
 }
 
 pub fn err_is_unknown_object(text: &str) -> bool {
@@ -669,6 +681,10 @@ impl Interp {
             poisoned_rows: BTreeSet::new(),
             updated_rows: BTreeSet::new(),
             checks_done: 0,
+            sess_reads: BTreeMap::new(),
+            saw_foreign_end_between_reads: false,
+            saw_concurrent_same_row_write: false,
+            tolerate_ww_conflict: false,
         })
     }
 
@@ -845,6 +861,35 @@ impl Interp {
         }
     }
 
+    /// Rows matched by a writing statement that some other transaction (open, or committed after
+    /// `begin_epoch`) has updated or deleted: a write-write conflict under snapshot isolation.
+    fn ww_conflict_rows(&self, stmt: &Stmt, view: &State, me: Option<u8>, begin_epoch: u64) -> bool {
+        let (table, pred) = match stmt {
+            Stmt::Delete { table, pred } | Stmt::Update { table, pred, .. } => (table, pred),
+            _ => return false,
+        };
+        let Some(tb) = view.tables.get(table) else { return false };
+        let matched: Vec<u64> = tb.rows.iter().filter(|(_, r)| pred.eval(r) == Some(true)).map(|(id, _)| *id).collect();
+        if matched.is_empty() {
+            return false;
+        }
+        let hit = |rows: &[(String, u64)]| rows.iter().any(|(t, id)| t == table && matched.contains(id));
+        for (s, o) in &self.txns {
+            if Some(*s) != me && hit(&Model::write_set(o)) {
+                return true;
+            }
+        }
+        self.model.commit_log.iter().any(|(ep, rows)| *ep > begin_epoch && hit(rows))
+    }
+
+    fn note_foreign_end(&mut self, except: Option<u8>) {
+        for (s, v) in self.sess_reads.iter_mut() {
+            if Some(*s) != except && v.0 >= 1 {
+                v.1 = true;
+            }
+        }
+    }
+
     fn after_read(&mut self) {
         if self.pending_noncommit_write {
             self.saw_noncommit_write_then_read = true;
@@ -889,6 +934,17 @@ impl Interp {
                 }
                 let mut tags = stmt_tags(&s, &self.model.committed);
                 tags.extend(self.history_tags(&s, &self.model.committed));
+                if !self.txns.is_empty() {
+                    if matches!(s, Stmt::Update { .. }) {
+                        tags.push("update.concurrent".into());
+                    }
+                    if self.ww_conflict_rows(&s, &self.model.committed, None, self.model.epoch) {
+                        tags.push("dml.ww_conflict".into());
+                    }
+                    if !matches!(s, Stmt::Select { .. } | Stmt::Bad { .. }) {
+                        tags.push("autocommit_write_while_session_open".into());
+                    }
+                }
                 if self.skip_if_excluded(&tags) {
                     return None;
                 }
@@ -920,6 +976,9 @@ impl Interp {
                 }
                 if matches!(s, Stmt::Select { .. }) {
                     self.after_read();
+                }
+                if !matches!(s, Stmt::Select { .. }) && !matches!(m, MOut::Err(..)) {
+                    self.note_foreign_end(None);
                 }
                 if let (Stmt::DropTable { table }, MOut::Ddl) = (&s, &m) {
                     self.poisoned_keys.retain(|(t, _, _)| t != table);
@@ -953,6 +1012,7 @@ impl Interp {
                     return Some(self.fail("begin_failed", e.text()));
                 }
                 self.txns.insert(*s, self.model.begin());
+                self.sess_reads.insert(*s, (0, false));
                 if self.txns.len() > 1 {
                     self.tags.insert("txn.concurrent".into());
                 }
@@ -967,6 +1027,15 @@ impl Interp {
                 let mut tags = stmt_tags(&stmt, &txn.view);
                 tags.push("txn.session".into());
                 tags.extend(self.history_tags(&stmt, &txn.view));
+                if matches!(stmt, Stmt::Update { .. }) {
+                    tags.push("update.in_session".into());
+                    if self.txns.len() > 1 {
+                        tags.push("update.concurrent".into());
+                    }
+                }
+                if self.ww_conflict_rows(&stmt, &txn.view, Some(*s), txn.begin_epoch) {
+                    tags.push("dml.ww_conflict".into());
+                }
                 if let Stmt::Delete { table, pred } = &stmt {
                     if let Some(tb) = txn.view.tables.get(table) {
                         if tb.rows.iter().any(|(id, r)| self.updated_rows.contains(&(table.clone(), *id)) && pred.eval(r) == Some(true)) {
@@ -1011,6 +1080,21 @@ impl Interp {
                         self.updated_rows.insert((table.clone(), *id));
                     }
                 }
+                if matches!(stmt, Stmt::Select { .. }) {
+                    let v = self.sess_reads.entry(*s).or_insert((0, false));
+                    if v.0 >= 1 && v.1 {
+                        self.saw_foreign_end_between_reads = true;
+                    }
+                    v.0 += 1;
+                    v.1 = false;
+                }
+                {
+                    let mine = Model::write_set(&txn);
+                    if !mine.is_empty() && self.txns.values().any(|o| Model::write_set(o).iter().any(|r| mine.contains(r))) {
+                        self.saw_concurrent_same_row_write = true;
+                        self.tags.insert("txn.same_row_write".into());
+                    }
+                }
                 let failed = matches!(m, MOut::Err(..));
                 if failed {
                     self.tags.insert("failed_stmt".into());
@@ -1040,15 +1124,21 @@ impl Interp {
             }
             Step::Commit(s) => {
                 let Some(txn) = self.txns.remove(s) else { return None };
+                self.sess_reads.remove(s);
                 self.trace(format!("[{i}] s{s}: COMMIT"));
                 self.tags.insert("txn.commit".into());
                 let r = self.db.commit(*s);
                 let conflict = self.model.ww_conflict(&txn);
                 match r {
                     Ok(()) => {
-                        if conflict {
+                        if conflict && self.tolerate_ww_conflict {
+                            self.skipped.push("txn.ww_conflict_check".into());
+                        } else if conflict {
                             self.tags.insert("txn.ww_conflict".into());
                             return Some(self.fail("lost_update_both_commit", format!("step {i}: session {s} committed although a transaction that committed after it began wrote the same row(s) {:?}", Model::write_set(&txn))));
+                        }
+                        if txn.wrote {
+                            self.note_foreign_end(Some(*s));
                         }
                         self.model.commit(txn);
                     }
@@ -1093,7 +1183,9 @@ impl Interp {
                 self.tags.extend(tags);
                 if txn.wrote {
                     self.pending_noncommit_write = true;
+                    self.note_foreign_end(Some(*s));
                 }
+                self.sess_reads.remove(s);
                 let (eff, view) = (txn.effects.clone(), txn.view.clone());
                 self.poison_from_effects(&eff, &view);
                 if is_drop {
